@@ -209,10 +209,12 @@ func (en *Engine) verifyFunc(fn *ssa.Function, ct *FuncContract, findings ...*Fi
 		}
 		for k, e := range en.activeClauses(ct.Ensures, ct) {
 			name := fmt.Sprintf("post.%s@return#%d", clauseName(e, k), ri+1)
-			goal := post.evalBool(e.E)
-			if len(conds) <= 1 {
-				vc.oblige(name, "post", implies(r.reach, goal), clauseProps(e, ct.Props), e.Where+" / "+r.where, "ensures "+e.Src)
-				vc.assume(implies(r.reach, goal))
+			goal, why := vc.checkedGoal(post, e.E)
+			if len(conds) <= 1 || why != "" {
+				vc.oblige(name, "post", implies(r.reach, goal), clauseProps(e, ct.Props), e.Where+" / "+r.where, "ensures "+e.Src+why)
+				if why == "" {
+					vc.assume(implies(r.reach, goal))
+				}
 				continue
 			}
 			for pi, c := range conds {
